@@ -87,18 +87,34 @@ fn main() {
         }
         let obb_alg = matches!(alg, "rib2" | "rib3" | "hilbert2" | "hilbert3" | "zcurve2" | "zcurve3" | "kmeans2");
         // OBB-based algorithms sum products of offsets from the centroid: exact when n is a power of two
-        let n = if obb_alg && r.chance(3, 4) {
+        let rcb_like = matches!(alg, "rcb2" | "rcb3" | "rib2" | "rib3");
+        // Rcb's fold is split by rayon only above with_min_len(4096): 2 chunks from 8192 points, 4 from 16384
+        let large = (rcb_like && r.chance(1, 6)) || (alg != "multijagged2" && alg != "dual" && r.chance(1, 60));
+        let n = if large {
+            if r.chance(1, 2) { 16384 + r.below(4000) as usize } else { 8192 + r.below(2000) as usize }
+        } else if obb_alg && r.chance(3, 4) {
             1usize << r.range(1, 5)
-        } else if r.chance(1, 40) {
-            // large enough for rayon to split Rcb's fold (with_min_len(4096))
-            8192 + r.below(2000) as usize
         } else {
             r.range(2, 40) as usize
         };
         let pow2 = n.is_power_of_two();
         let (wfam, ws) = gen::weights(&mut r, n);
         let d = if alg.ends_with('3') { 3 } else { 2 };
-        let (pf, pts) = int_points(&mut r, n, d);
+        let (pf, pts) = if large && r.chance(2, 3) {
+            // pairwise distinct integer coordinates on the first axis, in random order
+            let mut xs: Vec<usize> = (0..n).collect();
+            for i in (1..n).rev() {
+                let j = r.below(i as u64 + 1) as usize;
+                xs.swap(i, j);
+            }
+            let pts: Vec<Vec<f64>> = xs
+                .iter()
+                .map(|x| (0..d).map(|j| if j == 0 { *x as f64 } else { r.range(0, 99) as f64 }).collect())
+                .collect();
+            ("large_distinct_x", pts)
+        } else {
+            int_points(&mut r, n, d)
+        };
         let mut params = String::new();
         let mut input = String::new();
         let mut rename = false;
@@ -232,13 +248,13 @@ fn main() {
             }
         }
         let job = std::sync::Arc::new(job);
-        let mut outs: Vec<String> = Vec::new();
+        let mut raw: Vec<Vec<usize>> = Vec::new();
         let mut bad = None;
         'pools: for &t in POOLS.iter() {
             for _ in 0..REPS {
                 let j = job.clone();
                 match guarded(t, Duration::from_secs(120), move || j()) {
-                    Guarded::Done(p) => outs.push(coq_nlist(p.iter().map(|x| *x as u128))),
+                    Guarded::Done(p) => raw.push(p),
                     Guarded::Panic(m) => {
                         panics += 1;
                         bad = Some(format!("panic with {t} threads: {m}"));
@@ -252,6 +268,31 @@ fn main() {
                 }
             }
         }
+        // Large outputs are sent as differences from the first run: [] for the first run and, for
+        // every other run, the flattened (index, value) pairs where it differs (all empty iff all equal).
+        let compact = n > 2000 && !rename;
+        let outs: Vec<String> = if compact {
+            raw.iter()
+                .enumerate()
+                .map(|(k, p)| {
+                    let mut d: Vec<u128> = Vec::new();
+                    if k > 0 {
+                        if p.len() != raw[0].len() {
+                            d.push(u128::MAX >> 1);
+                        }
+                        for (i, (a, b)) in p.iter().zip(raw[0].iter()).enumerate() {
+                            if a != b && d.len() < 40 {
+                                d.push(i as u128);
+                                d.push(*a as u128);
+                            }
+                        }
+                    }
+                    coq_nlist(d)
+                })
+                .collect()
+        } else {
+            raw.iter().map(|p| coq_nlist(p.iter().map(|x| *x as u128))).collect()
+        };
         let alg_code = ALGS.iter().position(|x| *x == alg).unwrap();
         let coq = format!(
             "mk06 {} {} {} [{}]",
